@@ -188,6 +188,7 @@ class Ctx:
             depth = int(d[-1])
         scripts = [json.loads(tla_unescape(s)) for s in RE_TAGGED(tag).findall(out)]
         if simulate:
+            scripts = scripts[:simulate[0]]   # TLC honours num= only approximately
             gen = sum(len(s) for s in scripts) if scripts and isinstance(scripts[0], list) else len(scripts)
             dist = gen
         self.cov["states"] += dist
